@@ -242,14 +242,30 @@ func c06P3(l *core.Ledger, eps []*entryPoint) {
 			l.Check(okCount, "C06-P3", key+"/wait-count", ep.fn.Pos(), "one confirmation per enqueued message", "the number of confirmations waited for is not the number of messages enqueued: waits for a skipped node (hangs) or returns before all sends completed")
 		} else {
 			l.Check(len(recvs) == 1 && !sx.InLoop(recvs[0]), "C06-P3", key+"/wait-count", ep.fn.Pos(), "exactly one confirmation wait", fmt.Sprintf("unicast waits %d times", len(recvs)))
-			// no router on the nsw edge: enqueue with nil channel
-			okNil := false
+			// no router without send-waiting: enqueue registers a router exactly for a
+			// non-nil channel, every channel handed to enqueue is nil or made here,
+			// and no channel is made on a path consistent with noSendWaiting
+			okNil := len(ep.enqueues) > 0
 			for _, e := range ep.enqueues {
-				if edgesDominate(ep.fn, nsw, sx.NodeOf(e)) {
-					if c, ok := e.Call.Args[2].(*ssa.Const); ok && c.IsNil() {
-						okNil = true
+				for _, o := range sx.Origins(e.Call.Args[2]) {
+					_, isMake := o.V.(*ssa.MakeChan)
+					if !sx.IsZeroOrNil(o) && !(isMake && o.V.(*ssa.MakeChan).Parent() == ep.fn) {
+						okNil = false
 					}
 				}
+			}
+			isMakeResp := func(n sx.Node) bool {
+				mc, ok := n.Instr().(*ssa.MakeChan)
+				return ok && isResponseChan(mc.Type())
+			}
+			if _, made := sx.Reach(sx.Entry(ep.fn), isMakeResp, sx.Query{CondClass: func(ifi *ssa.If) (string, bool) {
+				v, pos := condOf(ifi)
+				if sx.All(sx.Origins(v), func(o sx.Origin) bool { return o.Kind == sx.KField && o.Field != nil && o.Field.Name() == "noSendWaiting" }) {
+					return "nsw", pos
+				}
+				return "", false
+			}, InitAssign: "nsw=1"}); made {
+				okNil = false
 			}
 			l.Check(okNil, "C06-P3", key+"/no-router", ep.fn.Pos(), "no router registered without send-waiting", "without send-waiting a router is still registered for a unicast: it is never removed")
 		}
@@ -291,18 +307,13 @@ func c06P5(l *core.Ledger, r *rt) {
 	if conf == nil {
 		l.Bad("C06-P5", key+"/confirmation", fn.Pos(), "no deferred send confirmation in sendMsg: a send-waiting one-way call never returns")
 	} else {
-		first := conf.Block() == fn.Blocks[0]
-		if first {
-			for _, in := range fn.Blocks[0].Instrs {
-				if in == ssa.Instruction(conf) {
-					break
-				}
-				switch in.(type) {
-				case *ssa.Call, *ssa.Select, *ssa.Return, *ssa.If:
-					first = false
-				}
+		// registered before any exit: the defer dominates every return
+		first := true
+		sx.AllInstrs(fn, func(n sx.Node, in ssa.Instruction) {
+			if _, isRet := in.(*ssa.Return); isRet && !sx.InstrDominates(fn, conf, n) {
+				first = false
 			}
-		}
+		})
 		// the id it confirms is the request's own
 		okID := confSite.msgID != nil && sx.All(sx.Origins(confSite.msgID), isReqMsgID(sx.IsParam(fn.Params[1])))
 		// guarded only by waitForSend
@@ -312,7 +323,7 @@ func c06P5(l *core.Ledger, r *rt) {
 				nIf++
 			}
 		})
-		l.Check(first && okID && nIf == 1, "C06-P5", key+"/confirmation", conf.Pos(), "deferred before anything else; confirms the request's own id; guarded only by waitForSend",
+		l.Check(first && okID && nIf == 1, "C06-P5", key+"/confirmation", conf.Pos(), "deferred before every return; confirms the request's own id; guarded only by waitForSend",
 			fmt.Sprintf("send confirmation: registered before any return: %v; under the request's own id: %v; guarded by waitForSend only: %v", first, okID, nIf == 1))
 	}
 	if wf := r.mustFn("C06-P5", "request.waitForSend"); wf != nil {
